@@ -5,6 +5,7 @@ package dht
 import (
 	"context"
 	"errors"
+	"time"
 
 	"github.com/ipfs/go-cid"
 	ci "github.com/libp2p/go-libp2p/core/crypto"
@@ -704,3 +705,99 @@ func VfPutValueRace() {
 }
 
 var _ = vfRegister("VfPutValueRace", VfPutValueRace)
+
+// VfProvideDeadline (C03, C06): classic Provide under a caller deadline, with
+// lookup requests that take (virtual) time: it returns by the deadline, leaves
+// no goroutine, and when only the inner (lookup) deadline was exceeded the
+// peers found so far still get the record.
+func VfProvideDeadline() {
+	P := vfParam("P")
+	vfHashBits(vfParam("W"))
+	vfHashFixed()
+	e, ids, _ := vfClientEnv(P+1, P)
+	d := e.dht
+	c := vfCid("content")
+	deadlines := []time.Duration{5 * time.Second, 30 * time.Second}
+	D := deadlines[vfChoose("deadline", len(deadlines))]
+	delays := []time.Duration{time.Second, 6 * time.Second, 40 * time.Second}
+	slow := map[peer.ID]time.Duration{}
+	var adds []vfSent
+	e.sender.reply = func(rctx context.Context, p peer.ID, req *pb.Message) (*pb.Message, error) {
+		switch req.Type {
+		case pb.Message_FIND_NODE:
+			dl, ok := slow[p]
+			if !ok {
+				dl = delays[vfChoose("findnode.delay", len(delays))]
+				slow[p] = dl
+			}
+			t := time.NewTimer(dl)
+			defer t.Stop()
+			select {
+			case <-t.C:
+			case <-rctx.Done():
+				return nil, rctx.Err()
+			}
+			return pb.NewMessage(pb.Message_FIND_NODE, nil, 0), nil
+		case pb.Message_ADD_PROVIDER:
+			adds = append(adds, vfSent{p, req})
+			return nil, nil
+		}
+		return nil, errors.New("unexpected request")
+	}
+	start := time.Now()
+	ctx, cancel := context.WithTimeout(context.Background(), D)
+	defer cancel()
+	err := d.Provide(ctx, c, true)
+	took := time.Since(start)
+	vfWaitIdle()
+	vfAssert(took <= D+time.Second, "provide/returns-by-the-callers-deadline")
+	answeredInTime := 0
+	reserve := D / 10
+	if D >= 10*time.Second {
+		reserve = time.Second
+	}
+	for _, p := range ids {
+		if dl, ok := slow[p]; ok && dl < D-reserve {
+			answeredInTime++
+		}
+	}
+	if answeredInTime == len(ids) && took < D-reserve {
+		vfAssert(err == nil, "provide/succeeds-when-the-lookup-finishes-in-time")
+	}
+	if err == nil {
+		vfAssert(len(adds) == len(ids), "provide/one-announcement-per-closest-peer")
+	}
+	if answeredInTime < len(ids) {
+		// the lookup cannot finish before its (inner) deadline, which leaves room
+		// before the caller's: the peers found so far get the record
+		for _, p := range ids {
+			if dl, ok := slow[p]; ok && dl < D-reserve {
+				n := 0
+				for _, t := range adds {
+					if t.to == p {
+						n++
+					}
+				}
+				vfAssert(n == 1, "provide/peers-found-before-the-lookup-deadline-still-get-the-record")
+			}
+		}
+	}
+	for _, s := range adds {
+		pp := s.msg.GetProviderPeers()
+		vfAssert(string(s.msg.GetKey()) == string(c.Hash()) && len(pp) == 1 && peer.ID(pp[0].Id) == d.self, "provide/announcement-names-exactly-the-local-peer")
+		n := 0
+		for _, t := range adds {
+			if t.to == s.to {
+				n++
+			}
+		}
+		vfAssert(n == 1, "provide/at-most-one-announcement-per-peer")
+	}
+	vfAssert(len(e.provs.added) == 1, "provide/records-the-local-node-as-provider")
+	cancel()
+	vfWaitIdle()
+	vfAssert(vfLiveGoroutines() == 1, "provide/no-goroutine-left-behind")
+	vfReach("providedeadline/end")
+}
+
+var _ = vfRegister("VfProvideDeadline", VfProvideDeadline)
